@@ -8,6 +8,7 @@
 // std
 #include <algorithm>  // std::min()/std::max() on Windows
 #include <cmath>
+#include <type_traits>
 
 // Include vector intrinsics
 #ifndef RKCOMMON_NO_SIMD
@@ -117,8 +118,19 @@ namespace rkcommon {
       return (1.f - factor) * a + factor * b;
     }
 
+    // NOTE: for integers '(a + b - 1) / b' overflows when a + b - 1 is not
+    //       representable, e.g. divRoundUp<uint32_t>(4294967295u, 2) == 0, so
+    //       the quotient is rounded up by looking at the remainder instead
     template <typename T>
-    inline T divRoundUp(T a, T b)
+    inline typename std::enable_if<std::is_integral<T>::value, T>::type
+    divRoundUp(T a, T b)
+    {
+      return a / b + (a % b > 0 ? 1 : 0);
+    }
+
+    template <typename T>
+    inline typename std::enable_if<!std::is_integral<T>::value, T>::type
+    divRoundUp(T a, T b)
     {
       return (a + b - 1) / b;
     }
